@@ -1535,59 +1535,103 @@ impl Interpreter {
     /// Process pending modules that have all their imports satisfied.
     /// Returns a list of unprovided imports if some pending modules still need dependencies
     /// that the host hasn't provided yet.
-    fn process_pending_modules(&mut self) -> Result<Vec<crate::ImportRequest>, JsError> {
-        loop {
-            // Collect all unprovided imports across all pending modules
-            // (imports that the host hasn't provided yet)
-            let mut all_unprovided: Vec<crate::ImportRequest> = Vec::new();
-            let mut ready_modules: Vec<crate::ModulePath> = Vec::new();
+    fn process_pending_modules(
+        &mut self,
+        roots: &[crate::ImportRequest],
+    ) -> Result<Vec<crate::ImportRequest>, JsError> {
+        // The order in which module bodies run must not depend on the order or the batching
+        // of the host's supplies (nor on hashing): nothing runs before every module that is
+        // needed has been provided, and then the bodies run dependencies first, siblings in
+        // the order of their import statements.
+        let mut pending_keys: Vec<crate::ModulePath> =
+            self.pending_module_sources.keys().cloned().collect();
+        pending_keys.sort_by(|a, b| a.as_str().cmp(b.as_str()));
 
-            // Clone keys to avoid borrow issues
-            let pending_keys: Vec<crate::ModulePath> =
-                self.pending_module_sources.keys().cloned().collect();
-
-            for module_path in &pending_keys {
-                // Skip if already loaded
-                if self.loaded_modules.contains_key(module_path) {
-                    continue;
-                }
-
-                // Get the program to check its imports
-                if let Some(program) = self.pending_module_sources.get(module_path) {
-                    let imports = self.collect_import_requests(program, Some(module_path));
-                    // Check if all imports are LOADED (not just provided)
-                    let missing_from_loaded = self.filter_missing_imports(imports.clone());
-
-                    if missing_from_loaded.is_empty() {
-                        // All imports are loaded - this module is ready to execute
-                        ready_modules.push(module_path.clone());
-                    } else {
-                        // Check which imports the HOST still needs to provide
-                        let unprovided = self.filter_unprovided_imports(imports);
-                        for req in unprovided {
-                            let already_in_list = all_unprovided
-                                .iter()
-                                .any(|r| r.resolved_path == req.resolved_path);
-                            if !already_in_list {
-                                all_unprovided.push(req);
-                            }
-                        }
+        // 1. What the host still has to provide, over all pending modules
+        let mut all_unprovided: Vec<crate::ImportRequest> = Vec::new();
+        for module_path in &pending_keys {
+            // Skip if already loaded
+            if self.loaded_modules.contains_key(module_path) {
+                continue;
+            }
+            if let Some(program) = self.pending_module_sources.get(module_path) {
+                let imports = self.collect_import_requests(program, Some(module_path));
+                for req in self.filter_unprovided_imports(imports) {
+                    let already_in_list = all_unprovided
+                        .iter()
+                        .any(|r| r.resolved_path == req.resolved_path);
+                    if !already_in_list {
+                        all_unprovided.push(req);
                     }
                 }
             }
-
-            // If we have modules ready to execute, execute them
-            if !ready_modules.is_empty() {
-                for module_path in ready_modules {
-                    self.execute_pending_module(&module_path)?;
-                }
-                // Continue the loop to check if more modules are now ready
-                continue;
-            }
-
-            // Return any imports the host still needs to provide
+        }
+        if !all_unprovided.is_empty() {
             return Ok(all_unprovided);
         }
+
+        // 2. Post-order walk from the importing program's imports (then from whatever else was
+        // supplied), with an explicit stack: (module, its imports, next import to visit)
+        let mut order: Vec<crate::ModulePath> = Vec::new();
+        let mut seen: FxHashSet<crate::ModulePath> = FxHashSet::default();
+        let starts = roots
+            .iter()
+            .map(|req| req.resolved_path.clone())
+            .chain(pending_keys.iter().cloned());
+        for start in starts {
+            let mut stack: Vec<(crate::ModulePath, Vec<crate::ModulePath>, usize)> = Vec::new();
+            let mut next = Some(start);
+            loop {
+                if let Some(path) = next.take() {
+                    if seen.insert(path.clone())
+                        && !self.loaded_modules.contains_key(&path)
+                        && let Some(program) = self.pending_module_sources.get(&path)
+                    {
+                        let imports = self
+                            .collect_import_requests(program, Some(&path))
+                            .into_iter()
+                            .map(|req| req.resolved_path)
+                            .collect();
+                        stack.push((path, imports, 0));
+                    }
+                }
+                let Some((path, imports, idx)) = stack.last_mut() else {
+                    break;
+                };
+                if let Some(child) = imports.get(*idx) {
+                    *idx += 1;
+                    next = Some(child.clone());
+                } else {
+                    order.push(path.clone());
+                    stack.pop();
+                }
+            }
+        }
+
+        for module_path in order {
+            // A body runs once (running another module may have loaded this one meanwhile) ...
+            if self.loaded_modules.contains_key(&module_path) {
+                continue;
+            }
+            // ... and only after everything it imports - which an import cycle makes impossible
+            let Some(program) = self.pending_module_sources.get(&module_path) else {
+                continue;
+            };
+            let imports = self.collect_import_requests(program, Some(&module_path));
+            let missing_from_loaded = self.filter_missing_imports(imports);
+            if !missing_from_loaded.is_empty() {
+                let first = missing_from_loaded
+                    .first()
+                    .map(|req| req.resolved_path.to_string())
+                    .unwrap_or_default();
+                return Err(JsError::syntax_error_simple(format!(
+                    "Circular import: '{}' needs '{}', which cannot be evaluated before it",
+                    module_path, first
+                )));
+            }
+            self.execute_pending_module(&module_path)?;
+        }
+        Ok(Vec::new())
     }
 
     /// Set up VM from a pending program (called when imports have been provided)
@@ -1615,7 +1659,7 @@ impl Interpreter {
 
         // Execute any pending modules before setting up the main program
         // This will execute in topological order (dependencies first)
-        let pending_module_unprovided = self.process_pending_modules()?;
+        let pending_module_unprovided = self.process_pending_modules(&imports)?;
         if !pending_module_unprovided.is_empty() {
             // Pending modules have dependencies the host hasn't provided yet
             self.pending_program = Some(program);
@@ -1629,6 +1673,7 @@ impl Interpreter {
             // But handle it gracefully
             self.pending_program = Some(program);
             let unprovided = self.filter_unprovided_imports(still_missing);
+            let unprovided = Self::dedupe_import_requests(unprovided);
             return Ok(StepResult::NeedImports(unprovided));
         }
 
